@@ -46,6 +46,7 @@ type zzC05Sys struct {
 	upCalls   atomic.Int64
 	listGate  atomic.Pointer[chan struct{}]
 	listCalls atomic.Int64
+	dhcp      *zzC05DHCP
 	upNames   sync.Map
 	listBody  atomic.Value
 	dir       string
@@ -232,6 +233,14 @@ func zzC05Boot(t testing.TB, dir string) (sys *zzC05Sys) {
 	globalContext.web = &webAPI{conf: &webConfig{}, logger: l, baseLogger: l, tlsManager: tlsMgr}
 	registerControlHandlers(globalContext.web)
 
+	// The DNS server reads leases through a wrapper that can run a hook right
+	// after a successful name lookup: the scheduler gate for "a lease changes
+	// while a request that has looked it up is still in flight".
+	if globalContext.dhcpServer != nil {
+		sys.dhcp = &zzC05DHCP{Interface: globalContext.dhcpServer}
+		globalContext.dhcpServer = sys.dhcp
+	}
+
 	statsDir, querylogDir, err := checkStatsAndQuerylogDirs(&globalContext, config)
 	if err != nil {
 		t.Fatalf("dirs: %v", err)
@@ -252,6 +261,23 @@ func zzC05Boot(t testing.TB, dir string) (sys *zzC05Sys) {
 	sys.dnsAddr = fmt.Sprintf("127.0.0.1:%d", dnsPort)
 
 	return sys
+}
+
+// zzC05DHCP wraps the real DHCP server on its way into the DNS server.
+type zzC05DHCP struct {
+	dhcpd.Interface
+
+	afterIPByHost atomic.Pointer[func(host string)]
+}
+
+// IPByHost implements the [dnsforward.DHCP] interface for *zzC05DHCP.
+func (w *zzC05DHCP) IPByHost(host string) (ip netip.Addr) {
+	ip = w.Interface.IPByHost(host)
+	if f := w.afterIPByHost.Load(); f != nil && ip.IsValid() {
+		(*f)(host)
+	}
+
+	return ip
 }
 
 func (sys *zzC05Sys) shutdown() {
@@ -724,7 +750,9 @@ func zzC05RunFamily(
 			// 127.0.7.x are the persistent clients' addresses, 127.0.10.15x
 			// those of the DHCP leases that the DHCPLeases family adds and
 			// removes: requests from them are attributed to a runtime client.
-			src := fmt.Sprintf("127.0.7.%d", 1+g%4)
+			// g = 0 and g = 3 share an address, so that one persistent client
+			// has two requests in flight at once.
+			src := fmt.Sprintf("127.0.7.%d", 1+g%3)
 			if g%7 >= 4 {
 				src = fmt.Sprintf("127.0.10.%d", 150+g%3)
 			}
@@ -1156,6 +1184,69 @@ func TestZZVerifC05Gated(t *testing.T) {
 		w.put(res)
 		if len(res.Bad) > 0 && strings.HasPrefix(res.Bad[0], "STALL") {
 			return
+		}
+	}
+
+	// A DHCP lease is removed while a request for its name, which has already
+	// looked the lease up, is still in flight (Concurrency.tla: a request stage
+	// reads the lease cell, the admin operation rewrites it, the request goes
+	// on).  The answer must be well formed: the address that was read, or a
+	// negative answer, never a record without an address.
+	if sys.dhcp != nil {
+		for i := 0; i < rounds; i++ {
+			res := &gatedRes{Kind: "gated", Family: "DHCPLeases", Round: 2000 + i}
+			le := m{"mac": "aa:bb:cc:dd:ee:31", "ip": "127.0.10.171", "hostname": "midflight"}
+			zzC05API(post, "/control/dhcp/remove_static_lease", le)
+			if code, body := zzC05API(post, "/control/dhcp/add_static_lease", le); code != http.StatusOK {
+				res.Bad = append(res.Bad, fmt.Sprintf("cannot add the lease: %d %s", code, body))
+				w.put(res)
+
+				continue
+			}
+
+			var once sync.Once
+			var hookBad atomic.Value
+			hook := func(host string) {
+				if host != "midflight" {
+					return
+				}
+
+				once.Do(func() {
+					res.Parked++
+					if bad := runTimed("lease removal while a request holding its address is in flight", func() {
+						zzC05API(post, "/control/dhcp/remove_static_lease", le)
+					}); bad != "" {
+						hookBad.Store(bad)
+					}
+				})
+			}
+			sys.dhcp.afterIPByHost.Store(&hook)
+
+			qt := dns.TypeA
+			c := &dns.Client{Net: []string{"udp", "tcp"}[i%2], Timeout: 20 * time.Second}
+			r, _, err := c.Exchange((&dns.Msg{}).SetQuestion("midflight.lan.", qt), sys.dnsAddr)
+			sys.dhcp.afterIPByHost.Store(nil)
+			if b, _ := hookBad.Load().(string); b != "" {
+				res.Bad = append(res.Bad, b)
+			}
+
+			switch {
+			case err != nil:
+				res.Bad = append(res.Bad, "midflight.lan: no well-formed answer: "+err.Error())
+			default:
+				for _, rr := range r.Answer {
+					if a, ok := rr.(*dns.A); ok && a.A.To4() == nil {
+						res.Bad = append(res.Bad, "midflight.lan: A record without an address: "+rr.String())
+					}
+				}
+
+				res.Replies = append(res.Replies, fmt.Sprintf("midflight.lan:rcode=%d:answers=%d", r.Rcode, len(r.Answer)))
+			}
+
+			w.put(res)
+			if len(res.Bad) > 0 && strings.HasPrefix(res.Bad[0], "STALL") {
+				return
+			}
 		}
 	}
 }
